@@ -43,7 +43,13 @@ def install(R):
         return z3.simplify(T.rval(v))
 
     # ------------------------------------------------------------------ engine hooks
+    prev_strmeth = S.get("__strmeth__")
+
     def strmeth(eng, fr, recv, meth, args, node):
+        if prev_strmeth is not None:
+            r = prev_strmeth(eng, fr, recv, meth, args, node)
+            if r is not None:
+                return r
         if recv.k != "V":
             return None
         t = recv.t
